@@ -46,6 +46,9 @@ def main():
             meta["demo_patched_rc"] = d1.returncode
             meta["demo_patched_tail"] = (d1.stdout + d1.stderr)[-400:]
             b = run([PY, "/verif/tools/baseline_check.py", wt], timeout=1200)
+            if b.returncode != 0:      # the pinned suite has a rarely flaky test under load: one retry
+                meta["baseline_first_try"] = b.stdout.strip()[:300]
+                b = run([PY, "/verif/tools/baseline_check.py", wt], timeout=1200)
             meta["baseline"] = b.stdout.strip().splitlines()[0] if b.stdout.strip() else b.stderr[-300:]
             meta["baseline_rc"] = b.returncode
             for c in checks:
